@@ -94,6 +94,24 @@ struct World {
     wrote: std::collections::BTreeMap<Vec<u8>, u64>,
 }
 
+/// Every storage call gets this long to answer; a call that does not is reported as `hung`.
+const OP_TIMEOUT: std::time::Duration = std::time::Duration::from_secs(5);
+const HUNG: &str = "c15-hung";
+
+/// Run one storage call on the runtime (as the server does, never on the waiting thread) and wait for its
+/// answer for at most OP_TIMEOUT: panics with HUNG if none comes, with "op panicked" if the call panicked.
+fn call(rt: &tokio::runtime::Runtime, fut: impl std::future::Future<Output = &'static str> + Send + 'static) -> &'static str {
+    let (tx, rx) = std::sync::mpsc::channel();
+    rt.spawn(async move {
+        let _ = tx.send(fut.await);
+    });
+    match rx.recv_timeout(OP_TIMEOUT) {
+        Ok(r) => r,
+        Err(std::sync::mpsc::RecvTimeoutError::Timeout) => panic!("{}", HUNG),
+        Err(std::sync::mpsc::RecvTimeoutError::Disconnected) => panic!("op panicked"),
+    }
+}
+
 impl World {
     fn open(&mut self, rw: bool, wrap: bool, cap: u64) {
         self.storage = None;
@@ -120,42 +138,54 @@ impl World {
 
     fn get_raw(&self, k: &str) -> &'static str {
         let st = self.storage.clone().unwrap();
-        match self.rt.block_on(st.get(k)) {
-            Ok(Cache::Hit(_)) => "hit",
-            Ok(Cache::Miss) => "miss",
-            Ok(_) => "other",
-            Err(_) => "err",
-        }
+        let k = k.to_owned();
+        call(&self.rt, async move {
+            match st.get(&k).await {
+                Ok(Cache::Hit(_)) => "hit",
+                Ok(Cache::Miss) => "miss",
+                Ok(_) => "other",
+                Err(_) => "err",
+            }
+        })
     }
 
     fn put_raw(&self, k: &str, size: u64, cid: u64) -> &'static str {
         let st = self.storage.clone().unwrap();
+        let k = k.to_owned();
         let n = size.saturating_sub(22) as usize;
-        let entry = CacheWrite::verif_with_comment(pattern(cid, n));
-        match self.rt.block_on(st.put(k, entry)) {
-            Ok(_) => "ok",
-            Err(e) => Self::refusal(&e),
-        }
+        call(&self.rt, async move {
+            let entry = CacheWrite::verif_with_comment(pattern(cid, n));
+            match st.put(&k, entry).await {
+                Ok(_) => "ok",
+                Err(e) => World::refusal(&e),
+            }
+        })
     }
 
     fn ppget_raw(&self, k: &str) -> &'static str {
         let st = self.storage.clone().unwrap();
-        match self.rt.block_on(st.get_preprocessor_cache_entry(k)) {
-            Ok(Some(_)) => "found",
-            Ok(None) => "none",
-            Err(_) => "err",
-        }
+        let k = k.to_owned();
+        call(&self.rt, async move {
+            match st.get_preprocessor_cache_entry(&k).await {
+                Ok(Some(_)) => "found",
+                Ok(None) => "none",
+                Err(_) => "err",
+            }
+        })
     }
 
     fn ppput_raw(&self, k: &str) -> &'static str {
         let st = self.storage.clone().unwrap();
+        let k = k.to_owned();
         if pp_default_bytes().len() as u64 != self.ppsz {
             return "ppsz_mismatch";
         }
-        match self.rt.block_on(st.put_preprocessor_cache_entry(k, PreprocessorCacheEntry::new())) {
-            Ok(()) => "ok",
-            Err(e) => Self::refusal(&e),
-        }
+        call(&self.rt, async move {
+            match st.put_preprocessor_cache_entry(&k, PreprocessorCacheEntry::new()).await {
+                Ok(()) => "ok",
+                Err(e) => World::refusal(&e),
+            }
+        })
     }
 
     /// After every storage call: give each file the real code wrote or touched the next logical mtime.
@@ -360,22 +390,28 @@ fn run_ro(case: &Sx) -> Sx {
     let mut w = World { rt, root, disk: None, storage: None, clock: 1000, cids, ppsz: case.arg(3).u64(), touched: BTreeSet::new(), wrote };
     w.open(case.arg(0).as_bool(), case.arg(1).as_bool(), case.arg(2).u64());
     let mut out = vec![w.observe(&["init"])];
-    let mut dead = false;
+    let mut dead: Option<&'static str> = None;
     for op in case.arg(5).list() {
-        if dead {
-            out.push(Sx::L(vec![Sx::sym("panic")]));
+        if let Some(how) = dead {
+            out.push(Sx::L(vec![Sx::sym(how)]));
             continue;
         }
         match catch(|| w.apply(op)) {
             Ok(r) => out.push(w.observe(&r)),
-            Err(_) => {
-                dead = true;
-                out.push(Sx::L(vec![Sx::sym("panic")]));
+            Err(msg) => {
+                let how = if msg == HUNG { "hung" } else { "panic" };
+                dead = Some(how);
+                out.push(Sx::L(vec![Sx::sym(how)]));
             }
         }
     }
-    w.storage = None;
-    w.disk = None;
+    if dead == Some("hung") {
+        // a thread of the runtime is stuck for good: dropping the runtime would wait for it
+        std::mem::forget(w);
+    } else {
+        w.storage = None;
+        w.disk = None;
+    }
     Sx::L(out)
 }
 
@@ -444,25 +480,61 @@ fn run_conc(case: &Sx) -> Sx {
         }
     }
     let leader = case.arg(4).list().first().map(|t| t.u64() as usize).unwrap_or(0).min(lookups.len().saturating_sub(1));
-    let mut handles: Vec<Option<tokio::task::JoinHandle<&'static str>>> = (0..lookups.len()).map(|_| None).collect();
+    let spawn = |pp: bool, k: String| {
+        let (tx, rx) = std::sync::mpsc::channel();
+        let st = st.clone();
+        rt.spawn(async move {
+            let _ = tx.send(one(st, pp, k).await);
+        });
+        rx
+    };
+    let mut handles: Vec<Option<std::sync::mpsc::Receiver<&'static str>>> = (0..lookups.len()).map(|_| None).collect();
     if !lookups.is_empty() {
         let (pp, k) = lookups[leader].clone();
-        handles[leader] = Some(rt.spawn(one(st.clone(), pp, k)));
+        handles[leader] = Some(spawn(pp, k));
         std::thread::sleep(std::time::Duration::from_millis(3));
     }
     for (i, (pp, k)) in lookups.iter().enumerate() {
         if i != leader {
-            handles[i] = Some(rt.spawn(one(st.clone(), *pp, k.clone())));
+            handles[i] = Some(spawn(*pp, k.clone()));
         }
     }
+    let mut hung = false;
+    let deadline = std::time::Instant::now() + OP_TIMEOUT;
     let burst: Vec<Sx> = handles
         .into_iter()
-        .map(|h| Sx::sym(rt.block_on(h.unwrap()).unwrap_or("panic")))
+        .map(|h| {
+            let left = deadline.saturating_duration_since(std::time::Instant::now());
+            match h.unwrap().recv_timeout(left) {
+                Ok(r) => Sx::sym(r),
+                Err(std::sync::mpsc::RecvTimeoutError::Timeout) => {
+                    hung = true;
+                    Sx::sym("hung")
+                }
+                Err(_) => Sx::sym("panic"),
+            }
+        })
         .collect();
-    let again: Vec<Sx> =
-        lookups.iter().map(|(pp, k)| Sx::sym(rt.block_on(one(st.clone(), *pp, k.clone())))).collect();
+    let again: Vec<Sx> = lookups
+        .iter()
+        .map(|(pp, k)| {
+            if hung {
+                return Sx::sym("hung");
+            }
+            match catch(|| call(&rt, one(st.clone(), *pp, k.clone()))) {
+                Ok(r) => Sx::sym(r),
+                Err(msg) => {
+                    hung = msg == HUNG;
+                    Sx::sym(if hung { "hung" } else { "panic" })
+                }
+            }
+        })
+        .collect();
     drop(st);
     let after = snapshot(&root);
+    if hung {
+        std::mem::forget(rt);
+    }
     Sx::L(vec![Sx::L(burst), Sx::L(again), Sx::bool(before == after)])
 }
 
